@@ -6,6 +6,7 @@ import (
 	"strconv"
 	"strings"
 	"time"
+	"unicode/utf8"
 
 	"github.com/tidwall/btree"
 	"github.com/tidwall/tile38/internal/collection"
@@ -109,7 +110,7 @@ func (s *Server) aofshrink() {
 								if !f.Value().IsZero() {
 									values = append(values, "field")
 									values = append(values, f.Name())
-									values = append(values, f.Value().JSON())
+									values = append(values, shrinkFieldValue(f.Value()))
 								}
 								return true
 							})
@@ -342,7 +343,7 @@ func shrinkSetValues(key string, o *object.Object, now int64) []string {
 	values := []string{"set", key, o.ID()}
 	o.Fields().Scan(func(f field.Field) bool {
 		if !f.Value().IsZero() {
-			values = append(values, "field", f.Name(), f.Value().JSON())
+			values = append(values, "field", f.Name(), shrinkFieldValue(f.Value()))
 		}
 		return true
 	})
@@ -360,4 +361,19 @@ func shrinkSetValues(key string, o *object.Object, now int64) []string {
 		values = append(values, "string", o.Geo().String())
 	}
 	return values
+}
+
+// shrinkFieldValue returns the text a field value is rewritten with: its JSON
+// form, which tells a string from the number, boolean or document it may look
+// like. A JSON string cannot carry bytes that are not UTF-8 (they would come
+// back as U+FFFD); such a string is written as it is when it reads back as
+// the same string.
+func shrinkFieldValue(v field.Value) string {
+	if v.Kind() == field.String && !utf8.ValidString(v.Data()) {
+		if r := field.ValueOf(v.Data()); r.Kind() == field.String &&
+			r.Data() == v.Data() {
+			return v.Data()
+		}
+	}
+	return v.JSON()
 }
